@@ -169,9 +169,11 @@ class PathsBase:
     case_timeout = 4
 
     @staticmethod
-    def model_skip(line):
-        """trpsub uses the real numpy generator: the model only knows the answer must be 1 (C13_sample_subset)"""
-        return False
+    def model_nocompare(line):
+        """`trps` (sample < 1 with an injected draw): WHICH pairs a given draw selects depends on the order of the
+        sources/targets lists, which no property fixes, so the sampled result is not compared with the model's line by
+        line; it is judged by the oracle (a sub-result of the full result, C13_sample_subset) instead."""
+        return line.startswith("trps ")
 
     @staticmethod
     def warm_ok(prefix, line):
